@@ -15,6 +15,7 @@ import (
 // C17: hijacked connections are handed over intact.
 
 type c17Conn struct {
+	StaleNoResp bool  `json:"plain_requests_set_no_response"`
 	Before   int   `json:"requests_before"`
 	TailLen  int   `json:"tail_len"`
 	Cuts     []int `json:"cuts"`
@@ -41,7 +42,7 @@ func scenC17(e *Env) func() {
 	n := e.Range(1, 4)
 	var subs []simnet.Faults
 	for ci := 0; ci < n; ci++ {
-		c := c17Conn{Before: e.Range(0, 2), TailLen: Pick(e, 0, 1, 5, 100, 4000, 4096, 5000, 8192, 9000), ReadBuf: Pick(e, 4096, 1, 7, 100, 10000), Faults: e.Chance(30), ClientFirst: e.Chance(20)}
+		c := c17Conn{Before: e.Range(0, 2), TailLen: Pick(e, 0, 1, 5, 100, 4000, 4096, 5000, 8192, 9000), ReadBuf: Pick(e, 4096, 1, 7, 100, 10000), Faults: e.Chance(30), ClientFirst: e.Chance(20), StaleNoResp: e.Chance(30)}
 		// stream = before-requests + hijack request + tail; cut anywhere
 		total := c.Before*40 + 60 + c.TailLen
 		c.Cuts = e.Cuts(total, Pick(e, 0, 1, 2, 5))
@@ -79,6 +80,11 @@ func c17Run(e *Env, p *c17Plan, subs []simnet.Faults) {
 	rbuf := map[string]int{}
 	k.Handle = func(ctx *fasthttp.RequestCtx, inv *Inv) {
 		if !strings.HasPrefix(inv.URI, "/hijack") {
+			if strings.HasPrefix(inv.URI, "/plainnr") {
+				// asks for suppression but does not hijack: the flag must
+				// neither suppress this response nor survive to a later request
+				ctx.HijackSetNoResponse(true)
+			}
 			ctx.SetBodyString("plain")
 			return
 		}
@@ -123,7 +129,11 @@ func c17Run(e *Env, p *c17Plan, subs []simnet.Faults) {
 		fs = append(fs, func() {
 			var stream bytes.Buffer
 			for i := 0; i < c.Before; i++ {
-				fmt.Fprintf(&stream, "GET /plain-%d HTTP/1.1\r\nHost: x\r\n\r\n", i)
+				if c.StaleNoResp {
+					fmt.Fprintf(&stream, "GET /plainnr%d HTTP/1.1\r\nHost: x\r\n\r\n", i)
+				} else {
+					fmt.Fprintf(&stream, "GET /plain-%d HTTP/1.1\r\nHost: x\r\n\r\n", i)
+				}
 			}
 			stream.WriteString("GET /hijack HTTP/1.1\r\nHost: x\r\nX-Pad: " + strings.Repeat("p", 10) + "\r\n\r\n")
 			tail := make([]byte, c.TailLen)
